@@ -29,7 +29,7 @@ META = {
             "The executable model is compared with the real BlockTree<BtcBlock>/BlockTree<VbkBlock> (custom parameter "
             "sets, several trees in one process, mined headers) on generated header chains.",
     "note": "Trusted: Coq kernel incl. vm_compute; extraction (ExtrOcamlBasic), OCaml driver, C++ harness, generators. "
-            "Print Assumptions: 15 of the 16 theorems are closed under the global context. C15_vbk_static_K_v0_refuted "
+            "Print Assumptions: 18 of the 19 theorems are closed under the global context. C15_vbk_static_K_v0_refuted "
             "(a vm_compute witness through the double step) lists the kernel's primitive float / 63-bit integer "
             "constants, which Print Assumptions reports under 'Axioms:' (they are primitives, no logical axiom is used): "
             "PrimFloat.float PrimFloat.abs PrimFloat.add PrimFloat.div PrimFloat.eqb PrimFloat.frshiftexp PrimFloat.ltb "
